@@ -177,7 +177,10 @@ def r18_1(ctx, run, rule='R18.1'):
             if preds.get('is_nan') is True:
                 cls = 'nan'
             elif preds.get('is_nan') is False and preds.get('is_infinite') is True:
-                cls = 'neg_inf' if preds.get('is_sign_negative') is True else ('inf' if preds.get('is_sign_negative') is False else 'inf?')
+                neg = preds.get('is_sign_negative')
+                if neg is None and preds.get('is_sign_positive') is not None:
+                    neg = not preds['is_sign_positive']
+                cls = 'neg_inf' if neg is True else ('inf' if neg is False else 'inf?')
             elif preds.get('is_nan') is False and preds.get('is_infinite') is False:
                 cls = 'finite'
             exp = {'nan': [('bytes', (tags['NUMBER_NAN'],))], 'inf': [('bytes', (tags['NUMBER_INF'],))],
@@ -199,6 +202,24 @@ def r18_1(ctx, run, rule='R18.1'):
                 else:
                     (run.proved if ok else run.violation)(rule, b.path, 'arm[Float64 finite]', 'NUMBER_FLOAT + f64 big-endian (9 bytes)' if ok else f'finite floats are written as {chunks}', loc)
                 table[('Float64', 'f64')] = tags['NUMBER_FLOAT']
+            elif (len(chunks) == 2 and chunks[0] == ('bytes', (tags['NUMBER_FLOAT'],)) and chunks[1][0] == 'be' and chunks[1][1] == 'f64'
+                  and any(s[0] == 'downcast' and s[2] == 'Float64' for s in subterms(chunks[1][2]))):
+                # the general form is right for every float, whatever was tested before
+                run.proved(rule, b.path, 'arm[Float64 general]', 'NUMBER_FLOAT + f64 big-endian (9 bytes)', loc)
+                table[('Float64', 'f64')] = tags['NUMBER_FLOAT']
+            elif (preds or extra) and not (chunks and chunks[0][0] == 'bytes' and len(chunks) == 1 and chunks[0][1] in
+                                           ((tags['NUMBER_NAN'],), (tags['NUMBER_INF'],), (tags['NUMBER_NEG_INF'],))):
+                conds = '; '.join(f'{show(c[0])} = {c[2]}' for c in extra) or str(preds)
+                run.violation(rule, b.path, 'arm[Float64 short-form]', f'floats satisfying [{conds}] are written as {chunks}: a float may only be written as NUMBER_NAN, NUMBER_INF, NUMBER_NEG_INF '
+                              f'or NUMBER_FLOAT + its 8 bytes; any other form does not decode to the same float (variant, sign of zero, bits)', loc)
+            elif preds or extra:
+                conds = '; '.join(f'{show(c[0])} = {c[2]}' for c in extra) or str(preds)
+                run.undecided(rule, b.path, 'arm[Float64 unclassified]', f'floats satisfying [{conds}] are written as {chunks}; the tests on this path do not classify the float as nan / infinite / finite '
+                              f'in a form this rule reads, so whether the short form is justified is not decided', loc)
+                if chunks and chunks[0][0] == 'bytes' and len(chunks) == 1:
+                    for cn, tg in (('nan', tags['NUMBER_NAN']), ('inf', tags['NUMBER_INF']), ('neg_inf', tags['NUMBER_NEG_INF'])):
+                        if chunks[0][1] == (tg,):
+                            table.setdefault(('Float64', cn), tg)
             else:
                 conds = '; '.join(f'{show(c[0])} = {c[2]}' for c in extra) or str(preds)
                 run.violation(rule, b.path, 'arm[Float64 unclassified]', f'floats satisfying [{conds}] are written as {chunks} on a path that never established nan / infinite / finite: '
@@ -241,7 +262,15 @@ def r18_2(ctx, run, rule='R18.2', enc_table=None):
         for c in p.conds:
             t = c[0]
             if isinstance(c[2], bool):
-                continue
+                # `if len == 8` / `if len != 8` / `if tag == X`: rewrite as the switch form
+                if t[0] == 'bin' and t[1] in ('Eq', 'Ne') and (const_of(t[3]) is not None or const_of(t[2]) is not None):
+                    kc = const_of(t[3]) if const_of(t[3]) is not None else const_of(t[2])
+                    other = t[2] if const_of(t[3]) is not None else t[3]
+                    holds = (t[1] == 'Eq') == c[2]
+                    c = (other, 'eq' if holds else 'ne', kc if holds else (kc,), c[3] if len(c) > 3 else None)
+                    t = other
+                else:
+                    continue
             hd = slice_head(t)
             if hd is not None and is_arg(hd, 1):
                 # the tag: first byte of the argument (bytes[0], *split_first()?.0, *first()?)
